@@ -229,7 +229,7 @@ Proof. vm_compute. repeat split; reflexivity. Qed.
     returns (dest', buf') - the source array is not an output.  A step is a cross-handler _transpose (same /
     scatter / gather) or the handler's own transpose on its topology axes.
     [sw_m_ok E n1 n2] = sw_any_wf_b and, on every world rank, the extent of the step (destination block size;
-    for a gather also p*B, for a handler-internal swap also p * padded block size) <= E.
+    for a gather also p*B, for a handler-internal swap also p * padded block size) <= E w.
     The well-formedness predicates do not relate extents and process counts (empty blocks are admitted). *)
 From PGV Require Import FrameMem SwapperFrame.
 
@@ -265,7 +265,7 @@ Print Assumptions c03_gather_frame_intact.
     gather, which ends with dest[:] = source[:] - equal to the source array there.  With one: dest and buf
     untouched beyond E.  (Scatter and same steps write the destination block only: E = its size.) *)
 Theorem c03_step_frame :
-  forall (V : Type) (dflt : V) (Nl nprocsT : list nat) (d' E : nat) (n1 n2 : sw_node) (from to : mems V),
+  forall (V : Type) (dflt : V) (Nl nprocsT : list nat) (d' : nat) (E : nat -> nat) (n1 n2 : sw_node) (from to : mems V),
   sw_m_ok Nl nprocsT d' E n1 n2 = true -> sw_Wm V nprocsT E from -> sw_Wm V nprocsT E to ->
   fr V dflt E from (fst (sw_m_plain V dflt Nl nprocsT d' n1 n2 from to)) /\
   (fr V dflt E to (snd (sw_m_plain V dflt Nl nprocsT d' n1 n2 from to)) \/
@@ -273,7 +273,7 @@ Theorem c03_step_frame :
 Proof. exact sw_m_plain_frame. Qed.
 Print Assumptions c03_step_frame.
 Theorem c03_step_frame_intact :
-  forall (V : Type) (dflt : V) (Nl nprocsT : list nat) (d' E : nat) (n1 n2 : sw_node) (from to scratch : mems V),
+  forall (V : Type) (dflt : V) (Nl nprocsT : list nat) (d' : nat) (E : nat -> nat) (n1 n2 : sw_node) (from to scratch : mems V),
   sw_m_ok Nl nprocsT d' E n1 n2 = true -> sw_Wm V nprocsT E from -> sw_Wm V nprocsT E to -> sw_Wm V nprocsT E scratch ->
   fr V dflt E to (fst (sw_m_intact V dflt Nl nprocsT d' n1 n2 from to scratch)) /\
   fr V dflt E scratch (snd (sw_m_intact V dflt Nl nprocsT d' n1 n2 from to scratch)).
@@ -281,7 +281,7 @@ Proof. exact sw_m_intact_frame. Qed.
 Print Assumptions c03_step_frame_intact.
 (** the block prefix of dest is exactly the output of the prefix-level model sw_run_any *)
 Theorem c03_step_prefix :
-  forall (V : Type) (dflt : V) (Nl nprocsT : list nat) (d' E : nat) (n1 n2 : sw_node) (from to : mems V) w j,
+  forall (V : Type) (dflt : V) (Nl nprocsT : list nat) (d' : nat) (E : nat -> nat) (n1 n2 : sw_node) (from to : mems V) w j,
   sw_m_ok Nl nprocsT d' E n1 n2 = true -> sw_Wm V nprocsT E from -> sw_Wm V nprocsT E to -> w < sw_nranks nprocsT ->
   inb (sw_shape Nl nprocsT d' (snd n2) w) j ->
   cell V dflt (snd (sw_m_plain V dflt Nl nprocsT d' n1 n2 from to)) w (ravel (sw_shape Nl nprocsT d' (snd n2) w) j)
@@ -289,7 +289,7 @@ Theorem c03_step_prefix :
 Proof. exact sw_m_plain_prefix. Qed.
 Print Assumptions c03_step_prefix.
 Theorem c03_step_prefix_intact :
-  forall (V : Type) (dflt : V) (Nl nprocsT : list nat) (d' E : nat) (n1 n2 : sw_node) (from to scratch : mems V) w j,
+  forall (V : Type) (dflt : V) (Nl nprocsT : list nat) (d' : nat) (E : nat -> nat) (n1 n2 : sw_node) (from to scratch : mems V) w j,
   sw_m_ok Nl nprocsT d' E n1 n2 = true -> sw_Wm V nprocsT E to -> w < sw_nranks nprocsT ->
   inb (sw_shape Nl nprocsT d' (snd n2) w) j ->
   cell V dflt (fst (sw_m_intact V dflt Nl nprocsT d' n1 n2 from to scratch)) w (ravel (sw_shape Nl nprocsT d' (snd n2) w) j)
@@ -299,21 +299,21 @@ Print Assumptions c03_step_prefix_intact.
 
 (** routes ([among V dflt E a l]: beyond E the array a coincides with one of the arrays of l) *)
 Theorem c03_route_frame :
-  forall (V : Type) (dflt : V) (Nl nprocsT : list nat) (d' E : nat) (cur : sw_node) (steps : list sw_node) (src dst : mems V),
+  forall (V : Type) (dflt : V) (Nl nprocsT : list nat) (d' : nat) (E : nat -> nat) (cur : sw_node) (steps : list sw_node) (src dst : mems V),
   sw_m_route_ok Nl nprocsT d' E cur steps = true -> sw_Wm V nprocsT E src -> sw_Wm V nprocsT E dst ->
   among V dflt E (fst (sw_m_redirect V dflt Nl nprocsT d' cur steps src dst)) [src; dst] /\
   among V dflt E (snd (sw_m_redirect V dflt Nl nprocsT d' cur steps src dst)) [src; dst].
 Proof. exact sw_m_redirect_frame. Qed.
 Print Assumptions c03_route_frame.
 Theorem c03_route_frame_intact :
-  forall (V : Type) (dflt : V) (Nl nprocsT : list nat) (d' E : nat) (cur : sw_node) (steps : list sw_node) (src dst buf : mems V),
+  forall (V : Type) (dflt : V) (Nl nprocsT : list nat) (d' : nat) (E : nat -> nat) (cur : sw_node) (steps : list sw_node) (src dst buf : mems V),
   sw_m_route_ok Nl nprocsT d' E cur steps = true -> sw_Wm V nprocsT E src -> sw_Wm V nprocsT E dst -> sw_Wm V nprocsT E buf ->
   among V dflt E (fst (sw_m_redirect_intact V dflt Nl nprocsT d' cur steps src dst buf)) [dst; buf] /\
   among V dflt E (snd (sw_m_redirect_intact V dflt Nl nprocsT d' cur steps src dst buf)) [dst; buf].
 Proof. exact sw_m_redirect_intact_frame. Qed.
 Print Assumptions c03_route_frame_intact.
 Theorem c03_mem_route_correct :
-  forall (V : Type) (dflt : V) (Nl nprocsT : list nat) (d' E : nat) (G : list nat -> V) (cur : sw_node)
+  forall (V : Type) (dflt : V) (Nl nprocsT : list nat) (d' : nat) (E : nat -> nat) (G : list nat -> V) (cur : sw_node)
     (steps : list sw_node) (src dst : mems V),
   sw_m_route_ok Nl nprocsT d' E cur steps = true -> sw_Wm V nprocsT E src -> sw_Wm V nprocsT E dst ->
   HoldsS V dflt Nl nprocsT d' G (snd cur) src ->
@@ -321,7 +321,7 @@ Theorem c03_mem_route_correct :
 Proof. exact sw_m_redirect_correct. Qed.
 Print Assumptions c03_mem_route_correct.
 Theorem c03_mem_route_correct_intact :
-  forall (V : Type) (dflt : V) (Nl nprocsT : list nat) (d' E : nat) (G : list nat -> V) (cur : sw_node)
+  forall (V : Type) (dflt : V) (Nl nprocsT : list nat) (d' : nat) (E : nat -> nat) (G : list nat -> V) (cur : sw_node)
     (steps : list sw_node) (src dst buf : mems V),
   steps <> [] -> sw_m_route_ok Nl nprocsT d' E cur steps = true ->
   sw_Wm V nprocsT E src -> sw_Wm V nprocsT E dst -> sw_Wm V nprocsT E buf ->
@@ -334,7 +334,7 @@ Print Assumptions c03_mem_route_correct_intact.
     Without a buffer dest becomes a copy of the whole source array (its tail holds the 7s); with one the
     source is intact, dest keeps its 8s and buf holds the gathered padded blocks. *)
 Example c03_example_frame :
-  sw_m_ok [2;2;2] [2;2] 2 6 (0, ([0;2;1],[0;1])) (1, ([0;2;1],[0])) = true /\
+  sw_m_ok [2;2;2] [2;2] 2 (fun _ => 4) (0, ([0;2;1],[0;1])) (1, ([0;2;1],[0])) = true /\
   sw_m_transpose nat 99 [2;2;2] [2;2] 2 (0, ([0;2;1],[0;1])) [(1, ([0;2;1],[0]))] false
     [[0;2;7;7;7;7];[1;3;7;7;7;7];[4;6;7;7;7;7];[5;7;7;7;7;7]] [[8;8;8;8;8;8];[8;8;8;8;8;8];[8;8;8;8;8;8];[8;8;8;8;8;8]]
     [[9;9;9;9;9;9];[9;9;9;9;9;9];[9;9;9;9;9;9];[9;9;9;9;9;9]]
